@@ -286,6 +286,38 @@ def t_choice_build(E):
     E.refutable("chm.choice_build", present)
 
 
+@task("chm.aliases", props=["C17", "C18"], functions=[C_ + "ChoiceMap." + m for m in ("merge", "__xor__", "__add__", "value", "simplify", "at", "empty")] + [
+    C_ + "Selection.complement", C_ + "Selection.filter"] + [C_ + "_ChoiceMapBuilder." + m for m in ("v", "d", "kw", "from_mapping", "n")])
+def t_aliases(E):
+    """the alias spellings mean what their primary spelling means: merge / ^ / + are the left-biased union `|`, value is choice,
+    Selection.complement is ~, Selection.filter(sample) is sample.filter(selection), the builder's v / d / kw / from_mapping set
+    the corresponding choice map at the builder's address"""
+    a, b, c = E.real("a"), E.real("b"), E.real("c")
+    m1 = E.call(C_ + "ChoiceMap.d", {"x": a, ("g", "y"): b})
+    m2 = E.call(C_ + "ChoiceMap.d", {"x": c, ("g", "z"): c})
+    union = E.method(m1, "__or__", m2)
+    ref = {("x",): (True, a), ("g", "y"): (True, b), ("g", "z"): (True, c)}
+    for nm in ("merge", "__xor__", "__add__"):
+        r = E.method(m1, nm, m2)
+        E.prove(f"C17.ChoiceMap.{nm}.is_the_left_biased_union", agrees(E, r, ref, ("g", "x", "y", "z")))
+    E.prove("C17.ChoiceMap.value.is_choice", E.eq(E.call(C_ + "ChoiceMap.value", a), E.call(C_ + "ChoiceMap.choice", a)))
+    E.prove("C17.ChoiceMap.simplify.is_the_identity", E.method(m1, "simplify") is m1)
+    at = E.I.getattr(E.call(C_ + "ChoiceMap.empty"), "at")
+    bld = E.method(at, "__getitem__", ("p", "q"))
+    E.prove("C17.ChoiceMapBuilder.v_sets_a_value", agrees(E, E.method(bld, "v", a), {("p", "q"): (True, a)}, ("p", "q"), depth=3))
+    E.prove("C17.ChoiceMapBuilder.kw_sets_a_static_map", agrees(E, E.method(bld, "kw", x=a, y=b),
+                                                                 {("p", "q", "x"): (True, a), ("p", "q", "y"): (True, b)}, ("p", "q", "x", "y"), depth=3))
+    E.prove("C17.ChoiceMapBuilder.d_sets_a_static_map", agrees(E, E.method(bld, "d", {"x": a}), {("p", "q", "x"): (True, a)}, ("p", "q", "x"), depth=3))
+    E.prove("C17.ChoiceMapBuilder.from_mapping_sets_a_static_map",
+            agrees(E, E.method(bld, "from_mapping", [("x", a), (("u", "v"), b)]),
+                   {("p", "q", "x"): (True, a), ("p", "q", "u", "v"): (True, b)}, ("p", "q", "x", "u", "v"), depth=4))
+    s = E.opaque("s", "Selection")
+    E.prove("C18.Selection.complement.is_invert", E.eq(E.method(s, "complement"), E.method(s, "__invert__")))
+    smp = chm(E, "sample")
+    E.prove("C18.Selection.filter.is_the_sample_filtered_by_the_selection", E.eq(E.method(s, "filter", smp), E.method(smp, "filter", s)))
+    E.refutable("chm.aliases", agrees(E, E.method(m2, "merge", m1), ref, ("g", "x", "y", "z")))
+
+
 @task("bounded.choice_map.index_address_kinds", props=["C17", "C11"], functions=FUNCS, kind="bounded")
 def t_bounded_index_kinds(_E):
     """BOUNDED stand-in (not a proof): array-valued index components, slices, builders under jax.vmap and vectorised flags -
